@@ -2,7 +2,7 @@
 
 Case (plain JSON):
 
-    {"t": {name: {"ext": parent name | None, "lib": bool, "mac": [nodes], "body": [nodes]}},
+    {"t": {name: {"ext": parent name | None, "extmode": 0..3, "lib": bool, "mac": [nodes], "body": [nodes]}},
      "main": "main",
      "fault": {"kind": "none" | "close" | "cancel" | "raise", "via": "render" | "generate",
                "k": int, "drv": "own" | "aio"}}
@@ -44,7 +44,7 @@ from vt import core
 PID = "C36"
 LEVEL = "fault_enumeration"
 RULE = (
-    "Hypothesis draws a template set (main template, optional extends chain of depth <= 2, included templates some of "
+    "Hypothesis draws a template set (main template, optional extends chain of depth <= 2 whose extends tags are plain, if-wrapped (not known at compile time) or preceded by statements/output, included templates some of "
     "which extend the chain, a macro library; bodies with nested blocks, super(), includes with and without context, "
     "imports, macros and call blocks, filter/set buffers, for loops over lists / async generators / async iterators, "
     "filtered loops with plain or async tests, loop.index/last/length, else, recursive). A dry run counts N chunks of "
@@ -148,7 +148,14 @@ def _body_src(nodes, d):
 def source_of(tdef):
     s = ""
     if tdef.get("ext"):
-        s += "{%% extends '%s' %%}" % tdef["ext"]
+        # extmode 0: plain top-level extends (known at compile time); 1: wrapped in an if that is true at run time
+        # (the compiler cannot know the template extends: has_known_extends stays False and the parent delegation
+        # at the end of root is guarded by `if parent_template is not None`); 2: preceded by a statement;
+        # 3: output before an if-wrapped extends
+        mode = tdef.get("extmode", 0)
+        ext = "{%% extends '%s' %%}" % tdef["ext"]
+        s += {0: ext, 1: "{% if x %}" + ext + "{% endif %}", 2: "{% set pre = x %}" + ext,
+              3: "T{{ af(1) }}{% if x %}" + ext + "{% endif %}"}[mode]
     if tdef.get("lib"):
         s += "{%% macro mm(a) %%}[{{ a }}%s]{%% endmacro %%}" % _body_src(tdef.get("mac") or [], 0)
     return s + _body_src(tdef["body"], 0)
@@ -575,6 +582,8 @@ def execute(case, judge_floop=False):
 
     main = case.get("main", "main")
     labels = ["kind_" + fault.get("kind", "none"), "via_" + fault.get("via", "render"), "end_" + status]
+    if any(td.get("ext") and td.get("extmode", 0) in (1, 3) for td in case["t"].values()):
+        labels.append("dynamic_extends")
     if aio:
         labels.append("drv_aio")
     seen_main_root = False
@@ -719,6 +728,8 @@ def _strategy(maxdepth):
                     names_in(part, acc)
         return acc
 
+    EXTMODE = st.sampled_from([0, 0, 1, 1, 2, 3])
+
     @st.composite
     def tsets(draw):
         g = G(draw)
@@ -742,16 +753,20 @@ def _strategy(maxdepth):
             else:
                 body = g.body(c, 0, 2, 4)
             T[name] = {"ext": chain[-1] if chain else None, "body": body}
+            if chain:
+                T[name]["extmode"] = draw(EXTMODE)
             inherited |= names_in(body, set())
             chain.append(name)
         main_incs = list(incs)
         if chain and draw(st.booleans()):
             c = g.ctx(incs, libs, inherited)
-            T["j0"] = {"ext": chain[-1], "body": g.child_body(c)}
+            T["j0"] = {"ext": chain[-1], "extmode": draw(EXTMODE), "body": g.child_body(c)}
             main_incs.append("j0")
         ext = chain[-1] if chain and draw(st.sampled_from([True, True, True, False])) else None
         c = g.ctx(main_incs, libs, inherited if ext else ())
         T["main"] = {"ext": ext, "body": g.child_body(c) if ext else g.body(c, 0, 2, 4)}
+        if ext:
+            T["main"]["extmode"] = draw(EXTMODE)
         return {"t": T, "main": "main"}
 
     return tsets()
@@ -854,7 +869,7 @@ PHASES = {"quick": [(3, 1000)], "thorough": [(3, 2000), (4, 4000), (5, 2000)]}
 def floors(total, tier):
     lab = total.labels
     need = ["kind_close", "kind_cancel", "kind_raise", "kind_none", "drv_aio", "in_block", "in_include", "in_parent",
-            "in_import", "in_include_ext", "end_cancelled", "end_boom", "nontrivial"]
+            "in_import", "in_include_ext", "dynamic_extends", "end_cancelled", "end_boom", "nontrivial"]
     missing = [n for n in need if lab.get(n, 0) < 20]
     if missing:
         return "label classes below floor 20: %s" % missing
